@@ -843,9 +843,9 @@ func runSearch(w *world, tier string, fracs fracmanager.List, si int, s searchSp
 		ntrees = 1
 	}
 	if lim.on() {
-		ntrees = 1 // limits on: one random tree over the per-fraction results and the Searcher
-		if tier == "quick" {
-			ntrees = 0
+		ntrees = 0 // limits on: the Searcher only (random merge trees are exercised with the limits off)
+		if tier != "quick" && si%4 == 0 {
+			ntrees = 1
 		}
 	}
 	for k := 0; k < ntrees && len(live) > 0; k++ {
@@ -900,7 +900,7 @@ func runSearch(w *world, tier string, fracs fracmanager.List, si int, s searchSp
 			}
 		}
 		// the histogram does not depend on the aggregation limits: with limits on only in the thorough tier
-		if s.hist > 0 && w.fkind == "" && (!lim.on() || tier != "quick") && (only == nil || only(ti, -1)) {
+		if s.hist > 0 && w.fkind == "" && (!lim.on() || tier != "quick" && si%4 == 0) && (only == nil || only(ti, -1)) {
 			emitHist(w, s, si, ti, run.t, run.qpr, live, baseInput, res)
 		}
 	}
@@ -1258,6 +1258,9 @@ func runWorld(seed uint64, idx int, tier string, nsearch int, only func(search, 
 		rs := r.Fork()
 		// every search runs with the limits off, with the production defaults and (ordinary worlds) with tiny limits
 		for li, lim := range limitConfigs(seed, w, si, s) {
+			if tier != "quick" && ((li == 1 && si%2 == 1) || (li == 2 && si%2 == 0 && si != 0)) {
+				continue // thorough (8 searches per world): production defaults on even, tiny limits on odd searches (both on the first)
+			}
 			rl := rs
 			if li > 0 {
 				rl = rng.New(seed*919 + uint64(idx)*104729 + uint64(si)*131 + uint64(li))
